@@ -21,7 +21,8 @@ T = {
     "C03": ("exploration", "exhaustive enumeration of straight-line DAG programs and parent-list graphs; path-sum reference + invocation log",
             "All straight-line programs up to n operations over logging user primitives (every operand choice, every output position), "
             "control-flow programs, and all small parent-list DAGs for toposort are enumerated; gradient = path-sum reference = forward "
-            "Jacobian, each live op's rule invoked exactly once with the reference adjoint, dead ops never.",
+            "Jacobian, each live op's rule invoked exactly once with the reference adjoint, dead ops never; accumulation patterns on (2,) arrays (a pass-through "
+            "sum node, up to 4 output terms in every order and association) against a symbolic derivative.",
             "Programs up to the stated size; scalar data; the path-sum/symbolic reference is trusted.", "3/C03"),
     "C04": ("exploration", "bounded-exhaustive configuration walk; forward Jacobian vs reverse Jacobian identity and linearity on a basis",
             "On every configuration where both rules exist the forward Jacobian (basis tangents) must equal the reverse Jacobian (basis "
@@ -37,7 +38,8 @@ T = {
     "C07": ("exploration", "bounded-exhaustive configuration walk at second order; three HVP routes + numerical derivative of the gradient",
             "For every configuration (reduced shapes) Hessian-vector products by reverse-over-reverse, forward-over-reverse and "
             "reverse-over-forward are computed for every basis vector; they must agree, be symmetric, and match a trust-tested numerical "
-            "derivative of autograd's own gradient; third order on the program alphabet against the symbolic reference.",
+            "derivative of autograd's own gradient; the zero-residual Gauss-Newton Hessian must equal J^T J; third derivatives along a fixed "
+            "direction by the four nestings RRR/FFF/RFR/FRF must agree and match the numerical derivative of the second.",
             "Finite point alphabet, reduced shapes.", "3/C07"),
     "C08": ("exploration", "exhaustive enumeration of nested-operator terms (depth<=3) on the real code vs symbolic reference",
             "All nested differentiation terms up to depth 3 - every mode assignment, operator spelling, closure subset per level (including "
@@ -51,7 +53,8 @@ T = {
     "C10": ("exploration", "exhaustive enumeration of array programs x VJP/JVP call histories with read-only operands and byte snapshots",
             "All array programs up to n ops (dense, sparse, view uses) are run with read-only inputs, constants and cotangents; all call "
             "sequences up to length 3 over a 2-cotangent alphabet are applied to one VJP/JVP function; any write fault, snapshot difference or "
-            "history-dependent result is a violation.", "Programs and histories up to the stated bounds.", "3/C10"),
+            "history-dependent result is a violation; every catalogue primitive is re-run with read-only operands and (co)tangents, and index arrays / "
+            "masks captured by the function (writeable and frozen) must stay byte-identical.", "Programs and histories up to the stated bounds.", "3/C10"),
     "C11": ("exploration", "exhaustive enumeration of index expressions and sparse/dense use orders vs scatter-by-ids reference",
             "Every index expression from the atom alphabet on every small shape, in both modes and at second order, is compared with the exact "
             "0/1 scatter Jacobian; all orders of k sparse and m dense uses of one value (k+m bounded) are compared with the dense sum, with "
@@ -80,16 +83,19 @@ T = {
             "under checkpoint up to third order.", "Arity and program-size bounds.", "3/C17"),
     "C18": ("exploration", "exhaustive enumeration of the checker's own Gaussian draws on an equal-weight lattice",
             "numpy.random's draw functions are replaced by a chooser; all draw sequences over a K-point lattice are enumerated for correct and "
-            "deliberately defective user primitives; correct rules must always pass, defects must be rejected on >= 99% of lattice weight.",
+            "deliberately defective user primitives (single modes and the default both-modes call); correct rules must always pass, defects must be "
+            "rejected on >= 99% of lattice weight.",
             "The probability bound is decided for the discretised distribution.", "3/C18"),
     "C19": ("fault_enumeration", "explicit-state BFS over global-state fingerprints with injected failures; canary set vs fresh interpreter",
             "Breadth-first search over histories of succeeding and failing differentiations (fault at k-th forward op, k-th backward rule, "
             "trace exit; every nesting and catching level); in every reached global state a canary set must give results bit-identical to a "
-            "fresh interpreter and equal to the symbolic reference.", "History length bound; event alphabet finite.", "3/C19"),
+            "fresh interpreter and equal to the symbolic reference; every catalogue leaf is additionally evaluated in forward and reversed order in "
+            "one process, alone in a fresh fork, and twice with the same array objects changed in place in between.", "History length bound; event alphabet finite.", "3/C19"),
     "C20": ("exploration", "stateless/explicit-state exploration of thread schedules of the real code under a controlled scheduler",
             "Real threads are serialised by a baton scheduler with scheduling points from sys.monitoring; all interleavings at the shared "
             "accesses (explicit-state, unbounded preemptions) and all schedules with bounded preemptions at function granularity are explored; "
-            "each thread must get its solo result.", "Sequentially consistent interleaving at instrumented points; 2-3 threads.", "3/C20"),
+            "each thread must get its solo result; every execution starts from the pristine library state (all module-level containers and scalars "
+            "restored).", "Sequentially consistent interleaving at instrumented points; 2-3 threads.", "3/C20"),
 }
 
 
